@@ -180,7 +180,8 @@ def run(out, tier):
         same_counts = z3.And(count(v1, p1, K32) == count(th_vals, th_pres, K32), count(v1, p1, tgt) == count(th_vals, th_pres, tgt))
         in_range = z3.ULT(z3.ZeroExt(32, tgt), th_len)
         return z3.And(g.e == gas, same_counts, z3.If(in_range, nip.e == tgt, nip.e == th_ip))
-    verdict(out, pr, "O5.fork", paths, post_fork, what="fork copies gas usage and every visit count; the new thread starts at the target")
+    verdict(out, pr, "O5.fork", paths, post_fork, what="fork copies gas usage and every visit count; the new thread starts at the target",
+            replay=lambda p, m: native.scenario(out, "fork_gas", {}), key="fork-does-not-copy-thread-accounting")
 
     # ---- O6 first instruction of a forked thread ---------------------------------------------------------------
     f_mark = eng.fn(">::mark_visited")
@@ -216,6 +217,8 @@ def run(out, tier):
 
     # ---- O4 VM::advance ------------------------------------------------------------------------------------------
     advance(out, eng, ex, pr)
+    # ---- O7 one main-loop iteration: the limit check guards the instruction actually stepped to ------------------
+    main_loop_step(out, eng, pr)
     # ---- O6 structural: where threads are created --------------------------------------------------------------
     thread_sites(out, eng)
     out.extra["solver_queries"] = pr.n_queries + ex.stats["queries"]
@@ -223,6 +226,10 @@ def run(out, tier):
 
 
 def verdict(out, pr, oid, paths, post, pre=None, kinds=("return",), expect=None, what="", replay=None, key=None):
+    return _verdict(out, pr, oid, paths, post, pre, kinds, expect, what, replay, key)
+
+
+def _verdict(out, pr, oid, paths, post, pre, kinds, expect, what, replay, key):
     for p in paths:
         if p.kind == "panic" and "panic" not in kinds:
             # an unexpected reachable panic inside the encoded function is C01 business; here it only must not hide paths
@@ -313,7 +320,7 @@ def jumpi_fork_guard(out, eng, pr):
                    note="every fork in JumpI::execute goes to the validated target and only while the current thread's visit count of it is below the limit")
 
 
-def advance(out, eng, ex, pr):
+def advance(out, eng, ex, pr, oid="O4.advance", key=None, replay=None):
     f = eng.fn(">::advance")
 
     def body(ctx):
@@ -323,8 +330,8 @@ def advance(out, eng, ex, pr):
     try:
         paths = ex.explore(body)
     except Unsupported as e:
-        out.obligation("O4.advance", "mirsmt", "inconclusive", 0, witness=False, note=str(e))
-        out.inconc("O4.advance: %s" % e)
+        out.obligation(oid, "mirsmt", "inconclusive", 0, witness=False, note=str(e))
+        out.inconc("%s: %s" % (oid, e))
         return
     # pre-state names
     ip = z3.BitVec("vm.2[0].1.0", 32)
@@ -364,9 +371,51 @@ def advance(out, eng, ex, pr):
         front = q.elems[0]
         nip = v.get(front, "VMThread", "thread", "instruction_pointer")
         return z3.And(keep, nip.e == nxt, z3.BoolVal(n_stored == 0), z3.BoolVal(n_errs == 0), killed_now.e == killed)
-    verdict(out, pr, "O4.advance", paths, post, pre=pre, kinds=("return", "panic"),
+    if replay is None:
+        def replay(p, model):
+            gas_reason = ev(model, z3.UGT(gas, gas_limit))
+            if gas_reason:
+                return native.scenario(out, "error_kind", {"kind": "GasLimitExceeded"},
+                                       judge=lambda d: d.get("permissive_ok", False) or d.get("strict_ok", False))
+            return native.scenario(out, "jump_loop_visits", {"max_iterations": 2})
+    verdict(out, pr, oid, paths, post, pre=pre, kinds=("return", "panic"), replay=replay, key=key or "vm-advance-bounds",
             what="advance keeps the thread iff next offset is in range, below the visit limit, gas <= limit and not killed (then ip' = ip+1); "
                  "otherwise it retires the thread exactly once, clears the kill flag and records GasLimitExceeded iff gas was the reason")
+
+
+def main_loop_step(out, eng, pr):
+    from . import c17, jumps
+    try:
+        paths, ex = c17.main_loop(eng, havoc_ip=True)
+    except Unsupported as e:
+        out.obligation("O7.main_loop_step", "mirsmt", "inconclusive", 0, witness=False, note=str(e))
+        out.inconc("O7: %s" % e)
+        return
+    n = jumps.vm_names()
+    inv = [c for c in jumps.vm_invariants(n)][:7] + [z3.UGE(c17.POLL, 1), z3.ULT(z3.ZeroExt(32, c17.IP_AFTER), n["code_len"]),
+                                                      z3.UGE(n["vis_max"], 1)]
+    ip, nxt = n["ip"], c17.IP_AFTER + 1
+    # visit counts after this iteration's mark_visited(ip)
+    cnt = lambda k: z3.If(k == ip, sat_inc(count(n["vis_vals"], n["vis_pres"], k)), count(n["vis_vals"], n["vis_pres"], k))
+
+    def post(p):
+        ctx = p.ctx
+        ops = [e for e in ctx.events if e[0] == "op"]
+        if not ops or ops[0][1] != "ok" or p.kind != "cut":
+            return None
+        cell = ctx.vmcell
+        q = View(ctx).get(cell, "VM", "thread_queue")
+        if not (isinstance(q, Obj) and q.elems) or getattr(q, "popped", 0):
+            return None          # the thread was retired
+        nip = View(ctx).get(q.elems[0], "VMThread", "thread", "instruction_pointer").e
+        return z3.And(nip == nxt, z3.ULT(z3.ZeroExt(32, nxt), n["code_len"]), z3.ULT(cnt(nxt), n["vis_max"]))
+
+    def replay(p, model):
+        return native.scenario(out, "jump_loop_visits", {"max_iterations": max(1, min(ev(model, n["vis_max"]), 4))})
+    verdict(out, pr, "O7.main_loop_step", paths, post, pre=inv, kinds=("cut",), replay=replay,
+            key="limit-check-not-applied-to-the-instruction-stepped-to",
+            what="after an instruction that moved the instruction pointer (JUMP), the thread continues only if the offset it steps to "
+                 "is inside the code and below the per-opcode iteration limit")
 
 
 def thread_sites(out, eng):
@@ -375,7 +424,7 @@ def thread_sites(out, eng):
         "VMThread::fork": {"fork_current_thread"},
         "VM::fork_current_thread": {"execute"},          # JumpI::execute
         "VM::enqueue_thread": {"fork_current_thread"},
-        "VMThread::new": {"new"},
+        "VMThread::new": {"new", "fork"},
     }
     found = {k: set() for k in want}
     owners = {k: [] for k in want}
